@@ -13,7 +13,8 @@ package soyhtml
 //@   nosafety
 
 //@ func htmlEscapeString
-//@   props C03 C12
+//@   like renderFn
+//@   props C03 C12 C08 C09
 //@   nosafety nilcall
 //@   ghost covered int = 0
 //@   ghost wfail bool = false
@@ -86,11 +87,11 @@ package soyhtml
 //@   ensures[one-write] writes == 1
 //@   ensures[write-failure-surfaces;C12] !werr
 //@   loop 0
-//@     invariant writes == 0 && !anyCancel
+//@     invariant writes == 0 && !anyCancel && fresh(directives) && !isnil(directives)
 //@   loop 1
 //@     invariant writes == 0 && escapeHtml == (mode != ast.AutoescapeOff && !anyCancel)
 //@   loop 2
-//@     invariant writes == 0 && escapeHtml == (mode != ast.AutoescapeOff && !anyCancel)
+//@     invariant writes == 0 && escapeHtml == (mode != ast.AutoescapeOff && !anyCancel) && fresh(args) && !isnil(args)
 
 // The builtin directive table (checked at the end of package init; the map is
 // a user-extensible registry, so it is not assumed elsewhere): autoescaping is
@@ -324,6 +325,8 @@ package soyhtml
 //@ func (*state).evalFunc
 //@   like renderFn
 //@   nosafety
+//@   loop 0
+//@     invariant fresh(args) && !isnil(args)
 //@ func (*state).evalDataRef
 //@   like renderFn
 //@   nosafety
